@@ -22,6 +22,9 @@ func verifWrite(tx *SQLTx, name string) ([]byte, []byte) {
 	verifrt.Assume(err == nil)
 	tx.updatedRows++
 	tx.lastInsertedPKs["t"] = int64(tx.updatedRows)
+	if _, ok := tx.firstInsertedPKs["t"]; !ok {
+		tx.firstInsertedPKs["t"] = int64(tx.updatedRows)
+	}
 	return k, v
 }
 
@@ -63,6 +66,7 @@ func VerifH_RollbackToSavepointBookkeeping() {
 	}
 	tx.Savepoint("a")
 	rowsAtSP, pkAtSP := tx.updatedRows, tx.lastInsertedPKs["t"]
+	firstAtSP, hadFirst := tx.firstInsertedPKs["t"]
 	for i := 0; i < post; i++ {
 		verifWrite(tx, "post")
 	}
@@ -70,6 +74,8 @@ func VerifH_RollbackToSavepointBookkeeping() {
 	verifrt.Reach("rolled back")
 	verifrt.Assert(tx.updatedRows == rowsAtSP, "affected-row counter restored")
 	verifrt.Assert(tx.lastInsertedPKs["t"] == pkAtSP, "generated-key bookkeeping restored")
+	f, has := tx.firstInsertedPKs["t"]
+	verifrt.Assert(has == hadFirst && f == firstAtSP, "first generated key restored")
 	verifrt.Assert(tx.RollbackToSavepoint("a") != nil, "a consumed savepoint no longer exists")
 	verifrt.Assert(tx.ReleaseSavepoint("zz") != nil, "releasing an unknown savepoint is an error")
 }
